@@ -143,6 +143,8 @@ def check_case(c, fn, args, ev, label_filter=None):
     for label, clause in c.labelled(list(c.ensures) + list(c.ghost.get('native_ensures', [])), 'post'):
         if label_filter and label_filter not in label:
             continue
+        if label.startswith('def:'):
+            continue        # definitional clauses introduce ghost abbreviations: nothing to check
         try:
             if not ev.holds(clause, ns, params):
                 failed.append('post:' + label)
